@@ -60,8 +60,12 @@ def check_script_calls(w, rep, keys):
             f = keys[k][0]
             n += 1
             fn = _enclosing(node)
-            rep.check("C17.wiring", "%s in %s: %d arguments" % (inst, fn, len(f.ins)), len(node.args) == len(f.ins) and not node.keywords,
-                      "%d positional arguments passed, %s declares %d inputs %s" % (len(node.args), f.fname, len(f.ins), f.in_names), where=(SCRIPT, node.lineno))
+            if any(isinstance(a, ast.Starred) for a in node.args):
+                # arguments handed over as an unpacked tuple: the count is not visible at the call site
+                rep.na("C17.wiring", "%s in %s: %d arguments" % (inst, fn, len(f.ins)), "called with *args (%s): the number of arguments is not read off the call" % ast.unparse(node)[:60])
+            else:
+                rep.check("C17.wiring", "%s in %s: %d arguments" % (inst, fn, len(f.ins)), len(node.args) == len(f.ins) and not node.keywords,
+                          "%d positional arguments passed, %s declares %d inputs %s" % (len(node.args), f.fname, len(f.ins), f.in_names), where=(SCRIPT, node.lineno))
             par = getattr(node, "_parent", None)
             if isinstance(par, ast.Assign) and len(par.targets) == 1 and isinstance(par.targets[0], (ast.Tuple, ast.List)):
                 rep.check("C17.wiring", "%s in %s: %d results unpacked" % (inst, fn, len(f.outs)), len(par.targets[0].elts) == len(f.outs),
